@@ -193,3 +193,45 @@ let check_zob_line (line:string) : unit =
      | _ -> mismatch "zob_line" "bad H header")
   | [f0] -> ignore f0
   | _ -> mismatch "zob_line" "bad H line"
+
+(* "fns" stream (C16): the tabulated graphs of the public functions against the closed forms
+   of Spec/Geometry.v and the model's square arithmetic: gives a concrete (square / pair)
+   witness when a table theorem no longer checks *)
+let check_fns_line (ln:string) : unit =
+  match tokens ln with
+  | name :: vals when String.length name > 2 && String.sub name 0 2 = "F_" ->
+    bump "fn_graphs";
+    let v = Array.of_list vals in
+    let cmp1 label (f:int -> string) =
+      Array.iteri (fun i x -> bump "fn_points"; if x <> f i then mismatch "oracle_table" (Printf.sprintf "%s[%d] = %s, closed form %s" label i x (f i))) v in
+    let sqn i = n_of_int i in
+    let opt = function Some x -> string_of_int (int_of_n x) | None -> "-1" in
+    (match name with
+     | "F_king_moves" -> cmp1 name (fun i -> u64s_of_n (king_moves (sqn i)))
+     | "F_knight_moves" -> cmp1 name (fun i -> u64s_of_n (knight_moves (sqn i)))
+     | "F_rook_rays" -> cmp1 name (fun i -> u64s_of_n (rook_rays (sqn i)))
+     | "F_bishop_rays" -> cmp1 name (fun i -> u64s_of_n (bishop_rays (sqn i)))
+     | "F_between" -> cmp1 name (fun i -> u64s_of_n (between (sqn (i / 64)) (sqn (i mod 64))))
+     | "F_line" -> cmp1 name (fun i -> u64s_of_n (line (sqn (i / 64)) (sqn (i mod 64))))
+     | "F_pawn_attacks_all_0" -> cmp1 name (fun i -> u64s_of_n (pawn_attack_tab true (sqn i)))
+     | "F_pawn_attacks_all_1" -> cmp1 name (fun i -> u64s_of_n (pawn_attack_tab false (sqn i)))
+     | "F_pawn_quiets_empty_0" -> cmp1 name (fun i -> u64s_of_n (get_pawn_quiets (sqn i) White N0))
+     | "F_pawn_quiets_empty_1" -> cmp1 name (fun i -> u64s_of_n (get_pawn_quiets (sqn i) Black N0))
+     | "F_rank_bb" -> cmp1 name (fun i -> u64s_of_n (rank_bb (sqn i)))
+     | "F_file_bb" -> cmp1 name (fun i -> u64s_of_n (file_bb (sqn i)))
+     | "F_adjacent_files" -> cmp1 name (fun i -> u64s_of_n (adjacent_files_bb (sqn i)))
+     | "F_edges" -> cmp1 name (fun _ -> u64s_of_n edges_bb)
+     | "F_up" -> cmp1 name (fun i -> opt (sq_up (sqn i)))
+     | "F_down" -> cmp1 name (fun i -> opt (sq_down (sqn i)))
+     | "F_left" -> cmp1 name (fun i -> opt (sq_left (sqn i)))
+     | "F_right" -> cmp1 name (fun i -> opt (sq_right (sqn i)))
+     | "F_uup" -> cmp1 name (fun i -> string_of_int (int_of_n (uup (sqn i))))
+     | "F_udown" -> cmp1 name (fun i -> string_of_int (int_of_n (udown (sqn i))))
+     | "F_uleft" -> cmp1 name (fun i -> string_of_int (int_of_n (uleft (sqn i))))
+     | "F_uright" -> cmp1 name (fun i -> string_of_int (int_of_n (uright (sqn i))))
+     | "F_make_square" -> cmp1 name (fun i -> string_of_int (int_of_n (mk_sq (sqn (i / 8)) (sqn (i mod 8)))))
+     | "F_sq_to_cr_0" -> cmp1 name (fun i -> string_of_int (int_of_n (square_to_castle_rights White (sqn i))))
+     | "F_sq_to_cr_1" -> cmp1 name (fun i -> string_of_int (int_of_n (square_to_castle_rights Black (sqn i))))
+     | _ -> ());
+    bump "distinct_nontrivial"
+  | _ -> ()
